@@ -148,7 +148,7 @@ func C17(e *Env) {
 		}
 		return rs
 	}
-	nPairs := e.Pick(60, 5000)
+	nPairs := e.Pick(60, 40000)
 	for _, img := range imgs {
 		reqs := []wire.Req{wire.P(wire.OpOpen, "/"+img.rel)}
 		reqs = append(reqs, pairsFor(img, nPairs)...)
@@ -162,7 +162,7 @@ func C17(e *Env) {
 		}
 	}
 	// re-opening images of different sector size on one connection
-	for i := 0; i < e.Pick(40, 400); i++ {
+	for i := 0; i < e.Pick(40, 3000); i++ {
 		a, b := imgs[rng.Intn(len(imgs))], imgs[rng.Intn(len(imgs))]
 		reqs := []wire.Req{wire.P(wire.OpOpen, "/"+a.rel), wire.CD(16, 1), wire.CD(2, 2),
 			wire.P(wire.OpOpen, "/"+b.rel), wire.CD(16, 1), wire.CD(4, 3), wire.CD(0, 1)}
